@@ -76,6 +76,11 @@ class Ctx:
         self.want.add(key)
         return self.sizes.get(key)
 
+    def bitfield(self, ty, path):
+        key = "@BF(%s, %s)" % (ty, path)
+        self.want.add(key)
+        return self.sizes.get(key)
+
     def text(self, n):
         r = n.get("range") or {}
         b, e = r.get("begin") or {}, r.get("end") or {}
@@ -123,6 +128,49 @@ def param_types(fq):
     return out
 
 
+def member_path(cx, n):
+    """for q->a.b.c where q is a pointer into memory (not simply a parameter): (node of q, pointee type text, "a.b.c"), else None"""
+    path = []
+    m = n
+    while m.get("kind") == "MemberExpr" and not m.get("isArrow"):
+        path.append(m.get("name"))
+        m = (m.get("inner") or [{}])[0]
+        while m.get("kind") == "ParenExpr":
+            m = (m.get("inner") or [{}])[0]
+    if m.get("kind") != "MemberExpr" or not m.get("isArrow"):
+        return None
+    path.append(m.get("name"))
+    base = (m.get("inner") or [{}])[0]
+    bs = base
+    while bs.get("kind") in ("ParenExpr", "ImplicitCastExpr") and bs.get("castKind") in (None, "LValueToRValue", "NoOp") and bs.get("inner"):
+        bs = bs["inner"][0]
+    if bs.get("kind") == "DeclRefExpr" and (bs.get("referencedDecl") or {}).get("kind") != "VarDecl":
+        return None                      # param->field: the routine's own object, a variable (a pointer that is CAST first, or a
+                                         # LOCAL pointer variable - it was computed from some buffer address - is memory)
+    qb = qual(base.get("type"))
+    if not is_ptr(qb):
+        return None
+    return base, qb[:-1].strip(), ".".join(reversed(path))
+
+
+def bitfield_load(cx, n, ty):
+    """q->bits where the member is a bit-field: load the bytes that hold it, shift, mask"""
+    mp = member_path(cx, n)
+    if mp is None:
+        return None
+    base, sty, path = mp
+    v = cx.bitfield(sty, path)
+    if v is None or v < 0:
+        return None
+    first, width = v // 1000, v % 1000
+    byteoff, shift = first // 8, first % 8
+    nbits = 8 if shift + width <= 8 else 16 if shift + width <= 16 else 32 if shift + width <= 32 else None
+    if nbits is None or width == 0:
+        return None
+    load = "(CLoad (mkty false %d) (CBin OAdd s64 %s (CLit s64 %d)))" % (nbits, expr(cx, base), byteoff)
+    return "(CCast %s (CBin OAnd u32 (CBin OShr u32 (CCast u32 %s) (CLit s32 %d)) (CLit u32 %d)))" % (ty, load, shift, (1 << width) - 1)
+
+
 def addr_of(cx, n):
     """address expression of an lvalue that lives in memory the routine was handed - p[i], *p, and q->f / q->f.g where q is not
     simply a parameter or local (a pointer that was itself loaded or computed).  None: the lvalue is treated as a variable named by
@@ -149,28 +197,11 @@ def addr_of(cx, n):
     if k == "UnaryOperator" and n.get("opcode") == "*" and inner:
         return expr(cx, inner[0])
     if k == "MemberExpr" and inner:
-        # collect the member path down to the first arrow
-        path = []
-        m = n
-        while m.get("kind") == "MemberExpr" and not m.get("isArrow"):
-            path.append(m.get("name"))
-            m = (m.get("inner") or [{}])[0]
-            while m.get("kind") == "ParenExpr":
-                m = (m.get("inner") or [{}])[0]
-        if m.get("kind") != "MemberExpr" or not m.get("isArrow"):
+        mp = member_path(cx, n)
+        if mp is None:
             return None
-        path.append(m.get("name"))
-        base = (m.get("inner") or [{}])[0]
-        bs = base
-        while bs.get("kind") in ("ParenExpr", "ImplicitCastExpr") and bs.get("castKind") in (None, "LValueToRValue", "NoOp") and bs.get("inner"):
-            bs = bs["inner"][0]
-        if bs.get("kind") == "DeclRefExpr" and (bs.get("referencedDecl") or {}).get("kind") != "VarDecl":
-            return None                      # param->field: the routine's own object, a variable (a pointer that is CAST first, or a
-                                             # LOCAL pointer variable - it was computed from some buffer address - is memory)
-        qb = qual(base.get("type"))
-        if not is_ptr(qb):
-            return None
-        off = cx.offsetof(qb[:-1].strip(), ".".join(reversed(path)))
+        base, sty, path = mp
+        off = cx.offsetof(sty, path)
         if off is None:
             return None
         return "(CBin OAdd s64 %s (CLit s64 %d))" % (expr(cx, base), off)
@@ -224,8 +255,12 @@ def expr(cx, n):
         return "CUnknown"
     if k in ("MemberExpr", "ArraySubscriptExpr") or (k == "UnaryOperator" and n.get("opcode") == "*"):
         a = addr_of(cx, n)
-        if a is not None and ty and not n.get("isBitfield"):
+        if a is not None and ty:
             return "(CLoad %s %s)" % (ty, a)
+        if k == "MemberExpr" and ty:
+            bf = bitfield_load(cx, n, ty)
+            if bf is not None:
+                return bf
         t = cx.text(n)
         if ty and t:
             return "(CVar %s %s)" % (ty, coq_s(t))
@@ -334,6 +369,28 @@ def sites_of(cx, fn):
                     for i, a in enumerate(args):
                         out.append(("%s:%d" % (kk, i), a))
                 res.append("(SCall %s %s %s)" % (coq_s(kk), coq_s(nm), lst(args)))
+                # memset(p, 0, sizeof *p) on a pointer variable, memset(&x, 0, sizeof x): the object reads 0 afterwards
+                if nm == "memset" and len(inner) == 4 and astq.const_value(inner[2]) == 0:
+                    szv = astq.const_value(inner[3])
+                    if szv is None:
+                        m_ = re.fullmatch(r"\(CLit u64 (\d+)\)", args[2])
+                        szv = int(m_.group(1)) if m_ else None
+                    d0 = inner[1]
+                    while d0.get("kind") in ("ParenExpr", "ImplicitCastExpr", "CStyleCastExpr") and d0.get("castKind") in (None, "BitCast", "NoOp", "LValueToRValue") and d0.get("inner"):
+                        d0 = d0["inner"][0]
+                    if d0.get("kind") == "DeclRefExpr" and is_ptr(qual(d0.get("type"))) and szv is not None:
+                        psz = cx.sizeof(qual(d0.get("type"))[:-1].strip())
+                        nm0 = (d0.get("referencedDecl") or {}).get("name")
+                        if psz is not None and psz == szv and nm0:
+                            res.append("(SZero %s)" % coq_s(nm0 + "->"))
+                            continue
+                    if d0.get("kind") == "UnaryOperator" and d0.get("opcode") == "&" and d0.get("inner") and szv is not None:
+                        tq = qual(d0["inner"][0].get("type"))
+                        tsz = cx.sizeof(tq)
+                        tx = cx.text(d0["inner"][0])
+                        if tsz is not None and tsz == szv and tx:
+                            res.append("(SZero %s)" % coq_s(tx))
+                            continue
                 # an argument &x / a local array handed over through a pointer to non-const: the callee may write x
                 ptypes = param_types(((callee.get("type") or {}).get("qualType")) or "")
                 for i, a in enumerate(inner[1:]):
@@ -572,6 +629,11 @@ def annotate_files(docs):
         go(d)
 
 
+BFDEF = ('static long bf_scan(const unsigned char *p, size_t n) { long first = -1; long w = 0; for (size_t i = 0; i < n * 8; i++) '
+         'if ((p[i / 8] >> (i % 8)) & 1) { if (first < 0) first = (long) i; w++; } return first < 0 ? -1 : first * 1000 + w; }\n'
+         '#define BF(T, path) ({ T x_; memset(&x_, 0, sizeof x_); x_.path = -1; bf_scan((const unsigned char *) &x_, sizeof x_); })\n')
+
+
 def probe_sizes(types, cflags, build):
     if not types:
         return {}
@@ -579,9 +641,9 @@ def probe_sizes(types, cflags, build):
     exe = os.path.join(build, "sizes_probe")
     types = sorted(types)
     with open(src, "w") as f:
-        f.write('#include <stdio.h>\n#include <stddef.h>\n#include "libwifi.h"\n#include "libwifi/core/radiotap/radiotap_iter.h"\nint main(void) {\n')
+        f.write('#include <stdio.h>\n#include <stddef.h>\n#include <string.h>\n#include "libwifi.h"\n#include "libwifi/core/radiotap/radiotap_iter.h"\n' + BFDEF + 'int main(void) {\n')
         for i, t in enumerate(types):
-            f.write('  printf("%%d %%zu\\n", %d, %s);\n' % (i, (t[1:] if t.startswith("@") else "sizeof(%s)" % t)))
+            f.write('  printf("%%d %%ld\\n", %d, (long) (%s));\n' % (i, (t[1:] if t.startswith("@") else "sizeof(%s)" % t)))
         f.write("  return 0;\n}\n")
     r = subprocess.run(["gcc"] + [c for c in cflags if not c.startswith("-fsyntax")] + ["-w", src, "-o", exe], stdout=subprocess.PIPE, stderr=subprocess.STDOUT, text=True)
     if r.returncode != 0:
@@ -589,7 +651,7 @@ def probe_sizes(types, cflags, build):
         ok = {}
         for t in types:
             with open(src, "w") as f:
-                f.write('#include <stdio.h>\n#include <stddef.h>\n#include "libwifi.h"\n#include "libwifi/core/radiotap/radiotap_iter.h"\nint main(void) { printf("%%zu\\n", %s); return 0; }\n' % (t[1:] if t.startswith("@") else "sizeof(%s)" % t))
+                f.write('#include <stdio.h>\n#include <stddef.h>\n#include <string.h>\n#include "libwifi.h"\n#include "libwifi/core/radiotap/radiotap_iter.h"\n' + BFDEF + 'int main(void) { printf("%%zu\\n", (size_t) (%s)); return 0; }\n' % (t[1:] if t.startswith("@") else "sizeof(%s)" % t))
             r = subprocess.run(["gcc"] + cflags + ["-w", src, "-o", exe], stdout=subprocess.PIPE, stderr=subprocess.STDOUT, text=True)
             if r.returncode == 0:
                 ok[t] = int(subprocess.run([exe], stdout=subprocess.PIPE, text=True).stdout.strip())
